@@ -182,6 +182,47 @@ func runC02(c *eng.Ctx) {
 		evNode, _ := hweEventNode(p, hwe)
 		cacheBeforeExit(c, r9, hwe, evNode)
 	}
+
+	// ---- R10: a snapshot belongs to the caller
+	r10 := c.Rule("C02.R10", "D:ownership", "monitor.Snapshot and resourceInformer.getCachedObjects return a slice allocated by that call (a caller renders it later, while other queues take their own snapshots of the same binding)", 2)
+	for _, key := range []string{pkgKem + ".(*monitor).Snapshot", pkgKem + ".(*resourceInformer).getCachedObjects"} {
+		f := r10.NeedFunc(key)
+		if f == nil {
+			continue
+		}
+		info := f.Pkg.TypesInfo
+		var bad ast.Expr
+		nret := 0
+		eng.InspectNoLit(f.Decl.Body, func(n ast.Node) bool {
+			ret, isR := n.(*ast.ReturnStmt)
+			if !isR || len(ret.Results) != 1 {
+				return true
+			}
+			nret++
+			res := ast.Unparen(ret.Results[0])
+			if v, isV := eng.SelObj(info, res).(*types.Var); isV && !v.IsField() && isDeclaredIn(info, f.Decl.Body, v) {
+				if _, isId := res.(*ast.Ident); isId {
+					if e := sharedSliceSource(info, f.Decl.Body, v); e != nil && bad == nil {
+						bad = e
+					}
+					return true
+				}
+			}
+			if !eng.IsNil(info, res) {
+				if _, isLit := res.(*ast.CompositeLit); !isLit && builtinCall(info, res, "make") == nil && bad == nil {
+					bad = res
+				}
+			}
+			return true
+		})
+		pos := f.Decl.Pos()
+		detail := ""
+		if bad != nil {
+			pos = bad.Pos()
+			detail = "`" + eng.Short(p.Fset, bad) + "`"
+		}
+		r10.Check(bad == nil && nret > 0, f.Key+" returns its own slice", pos, "the returned slice is allocated by the call", "the snapshot is built on memory that outlives the call ("+detail+"): a later snapshot of the same binding rewrites and re-sorts the list an earlier caller is still rendering - objects appear twice or disappear from that hook run")
+	}
 }
 
 func runC02R2(c *eng.Ctx, r *eng.RuleCtx) {
